@@ -111,7 +111,18 @@ def _all():
         yield {"fam": "compound", "k": k}
 
 
+def _deep():
+    T3 = grids.terms(["x", "y", "z"], [-2, -1, 0, 1, 2], [-1, 0, 1])
+    for t in T3:
+        yield {"fam": "term", "base": t, "deep": True}
+    panel = [[{"x": 1}, 0], [{"x": -1, "y": 2}, 1], [{"y": 1}, 0], [{"x": 1, "y": 1}, -1], [{"x": 2, "z": -1}, 3], [{"z": 1}, 0.5]]
+    for L in grids.lists_upto(panel, 3, ordered=True, minlen=2):
+        yield {"fam": "list", "base": L, "deep": True}
+
+
 def cases(tier, seed):
+    if tier == "thorough":
+        return itertools.chain(_all(), grids.dedupe(_deep()))
     return _all()
 
 
